@@ -58,6 +58,9 @@ func (c *candidate) startElection() {
 		lastLogTerm:  c.lastLogTerm,
 		transfer:     c.transfer,
 	}
+	// the permission to disrupt the leader covers the election the
+	// timeout-now request asked for, not the re-elections after it
+	c.transfer = false
 	for _, n := range c.configs.Latest.Nodes {
 		if n.Voter && n.ID != c.nid {
 			if trace {
